@@ -29,8 +29,14 @@ def context_free(text, rng):
     return out
 
 
+def line_structure_pairs(case, reason):
+    """F14g: the hand-written pairs about line ends after an annotated comma, ### over a line end, a comma at the start of a line"""
+    return case.klass.startswith('hand-written-layout-pair-')
+
+
 class Prop:
     id = 'C14'
+    known_matchers = {'line_structure_pairs': line_structure_pairs}
     level = 'proof'
     theorems_file = 'Properties/C14.v'
     exhaustive_note = ''
@@ -111,6 +117,27 @@ class Prop:
                              and re.search(k + r'=(\S+)', o).group(1) != re.search(k + r'=(\S+)', ref).group(1)]
                     bad.append((Case(c.line, c.klass), 'two layouts of the same schema differ (%s): %s vs %s' % (','.join(parts) or 'verdict', o[:100], ref[:100])))
                     break
+        # hand-written pairs of layouts the printer never produces (reported by readers of the scanner): only the verdicts
+        # and the observables of the two texts are compared, the text model is not asked
+        pairs = [
+            ('crlf-after-annotated-comma', '{\n"a": 1, // {min: 0}\n/* note */ "b": 2\n}', '{\r\n"a": 1, // {min: 0}\r\n/* note */ "b": 2\r\n}'),
+            ('cr-after-annotated-comma', '{\n"a": 1, // {min: 0}\n/* note */ "b": 2\n}', '{\r"a": 1, // {min: 0}\r/* note */ "b": 2\r}'),
+            ('comment-over-a-line-end', '{\n"a": 1, ### c ###\n "b": 2 // {min: 0}\n}', '{\n"a": 1, ### c\n ### "b": 2 // {min: 0}\n}'),
+            ('comma-first-after-array', '{"a": [1],\n"b": 2 // note\n}', '{"a": [1]\n,"b": 2 // note\n}'),
+            ('comma-first-after-object', '{"a": {"c": 1},\n"b": 2 // note\n}', '{"a": {"c": 1}\n,"b": 2 // note\n}'),
+            ('comma-first-after-scalar', '{"a": 1,\n"b": 2 // note\n}', '{"a": 1\n,"b": 2 // note\n}'),
+            ('blank-line-before-comma', '{"a": [1],\n"b": 2 // note\n}', '{"a": [1]\n\n,\n"b": 2 // note\n}'),
+        ]
+        lines = []
+        for nm, a, b in pairs:
+            lines += ['stext ' + hx(a), 'stext ' + hx(b)]
+        res = self.run_impl(lines)
+        self.hand_pairs = len(pairs)
+        for k, (nm, a, b) in enumerate(pairs):
+            ra, rb = res[2 * k], res[2 * k + 1]
+            if ra != rb:
+                bad.append((Case(lines[2 * k + 1], 'hand-written-layout-pair-' + nm),
+                            'two layouts of the same schema differ (hand-written pair %s): %s vs %s' % (nm, rb[:80], ra[:80])))
         return bad
 
     def describe(self):
